@@ -21,6 +21,13 @@ def run(c):
     r3(c)
     r4(c)
     r5(c)
+    r6(c)
+
+
+def r6(c):
+    """the combined ACL must be the union of the generators' own ACLs: each ACL text normalised on its own and tagged"""
+    from rules import c10
+    c10.r4(c, rid="C02.R6")
 
 
 def r1(c):
